@@ -119,3 +119,9 @@ func TestVerif_C08_ViewBarrierInmem(t *testing.T) {
 func TestVerif_C08_ViewBarrierCacheInmem(t *testing.T) {
 	c08RunStack(t, "c08-view-barrier-cache-inmem", c08BarrierStack(true), kit.N(1500, 80000), kit.N(300, 16000), nil)
 }
+
+// replay stubs for the C08 tests of the other packages (see c08ReplayStub)
+func TestVerif_C08_Inmem(t *testing.T)      { c08ReplayStub(t, "c08-inmem") }
+func TestVerif_C08_CacheInmem(t *testing.T) { c08ReplayStub(t, "c08-cache-inmem") }
+func TestVerif_C08_Raft(t *testing.T)       { c08ReplayStub(t, "c08-raft") }
+func TestVerif_C08_CacheRaft(t *testing.T)  { c08ReplayStub(t, "c08-cache-raft") }
